@@ -228,6 +228,10 @@ pub enum P2Ev {
     Plus(i64),
     UdpToUnresolved,
     UdpToResolved,
+    /// a datagram with an EMPTY payload to the resolved peer (queued packets, zero queued octets)
+    UdpEmptyToResolved,
+    /// the same to the neighbor nobody answers for: it stays queued behind neighbor discovery
+    UdpEmptyToUnresolved,
     UdpBig,
     DnsQuery,
     /// a second, different DNS query (two pending queries in one socket, staggered timers)
@@ -399,6 +403,14 @@ impl P2 {
             P2Ev::UdpToResolved => {
                 let s = self.sockets.get_mut::<udp::Socket>(self.udp);
                 let _ = s.send_slice(b"y", (IpAddress::v4(192, 168, 1, 2), 9000));
+            }
+            P2Ev::UdpEmptyToUnresolved => {
+                let s = self.sockets.get_mut::<udp::Socket>(self.udp);
+                let _ = s.send_slice(b"", (IpAddress::v4(192, 168, 1, 77), 9000));
+            }
+            P2Ev::UdpEmptyToResolved => {
+                let s = self.sockets.get_mut::<udp::Socket>(self.udp);
+                let _ = s.send_slice(b"", (IpAddress::v4(192, 168, 1, 2), 9000));
             }
             P2Ev::UdpBig => {
                 let s = self.sockets.get_mut::<udp::Socket>(self.udp);
@@ -647,6 +659,7 @@ impl Harness for P2 {
             (P2Ev::Plus(LONG_SLEEP_US), 0),
             (P2Ev::UdpToUnresolved, 0),
             (P2Ev::UdpToResolved, 0),
+            (P2Ev::UdpEmptyToUnresolved, 0),
             (P2Ev::UdpBig, 0),
             (P2Ev::DnsQuery, 0),
             (P2Ev::ArpReplyFromPeer, 0),
@@ -656,6 +669,7 @@ impl Harness for P2 {
                 (P2Ev::Tick, 0),
                 (P2Ev::Plus(500_000), 0),
                 (P2Ev::UdpToResolved, 0),
+                (P2Ev::UdpEmptyToResolved, 0),
                 (P2Ev::UdpBig, 0),
                 (P2Ev::UdpBigOneFrame, 0),
                 (P2Ev::RawToPeer, 0),
